@@ -87,16 +87,18 @@ def s14_reader_cache_keying(ctx):
         r.add(f, "cache looked up under `fileid`", len(gm) == 1 and arg_origin(b, gm[0][2], 1) == ("arg", "fileid"), where(b, gm[0][1]) if gm else short_span(b.span), origin_str(arg_origin(b, gm[0][2], 1)) if gm else "no lookup")
         r.add(f, "new reader cached under `fileid`", len(pt) == 1 and arg_origin(b, pt[0][2], 1) == ("arg", "fileid"), where(b, pt[0][1]) if pt else short_span(b.span), origin_str(arg_origin(b, pt[0][2], 1)) if pt else "no put")
         good = False
-        if len(op) == 1:
-            o = peel(arg_origin(b, op[0][2], 0))
-            good = o[0] == "call" and o[1].endswith("datafile_name") and len(o[2]) > 1 and o[2][1] == ("arg", "fileid") and access_path(o[2][0]) == "path"
-        r.add(f, "missing reader opened on datafile_name(path, fileid)", good, where(b, op[0][1]) if op else short_span(b.span))
+        # the reader that is put into the cache, seen through a private constructor helper
+        pox = expand(prog, arg_origin(b, pt[0][2], 2), {}) if pt else ("unknown", "")
+        opens = origin_mentions(pox, lambda x: x[0] == "call" and x[1] == "storage::bitcask::log::open")
+        if len(opens) == 1 and opens[0][2]:
+            o = peel(opens[0][2][0])
+            good = o[0] == "call" and o[1].endswith("datafile_name") and len(o[2]) > 1 and peel_var(o[2][1]) == ("arg", "fileid") and access_path(o[2][0]) == "path"
+        r.add(f, "missing reader opened on datafile_name(path, fileid)", good, where(b, pt[0][1]) if pt else short_span(b.span), origin_str(pox)[:120])
         ok_args = len(uses) == 2 and all(arg_origin(b, t, 1) == ("arg", "len") and arg_origin(b, t, 2) == ("arg", "pos") for _, _, t in uses)
         r.add(f, "cached and fresh reader both read (len, pos)", ok_args, where(b, uses[0][1]) if uses else short_span(b.span), "%d uses" % len(uses))
         if pt and uses:
             # the reader that is cached is the one that was just opened
-            po = arg_origin(b, pt[0][2], 2)
-            good = bool(origin_mentions(po, lambda x: x[0] == "call" and x[1] and x[1].endswith("LogReader::new")))
+            good = bool(origin_mentions(pox, lambda x: x[0] == "call" and x[1] and x[1].endswith("LogReader::new")))
             r.add(f, "the reader put into the cache is the one just opened", good, where(b, pt[0][1]))
     return r
 
@@ -176,26 +178,35 @@ def s15_position_tracking(ctx):
     for fn, work in (("storage::bitcask::log::LogWriter::append", ("bincode::serialize_into",)), ("storage::bitcask::log::LogIterator::next", ("bincode::deserialize_from",))):
         b = prog.one(fn)
         f = fam_name(b)
-        ps = [(bb, t) for _, bb, t in calls_in([b], "storage::bitcask::bufio::BufWriterWithPos::pos", "storage::bitcask::bufio::BufReaderWithPos::pos")]
+        ps = [(bb, t) for _, bb, t in calls_in([b], "storage::bitcask::bufio::BufWriterWithPos::pos", "storage::bitcask::bufio::BufReaderWithPos::pos") if "macro:debug_assert" not in (t.get("exp") or "") + (t.get("fn_exp") or "")]
         wk = calls_in([b], *work)
         agg = None
         for bb in sorted(b.live_blocks()):
             for st in b.blocks[bb]["stmts"]:
                 if st["k"] == "assign" and st["rv"]["k"] == "agg" and st["rv"]["ak"] == "adt" and strip_generics(st["rv"]["adt"]).endswith("::LogIndex"):
                     agg = b.origin_rvalue(st["rv"])
-        if agg is None or len(ps) != 2 or len(wk) != 1:
-            r.unrec(f, "pos() ×%d, work ×%d, LogIndex literal %s" % (len(ps), len(wk), agg is not None), short_span(b.span), "expected 2/1/yes")
+        if agg is None or len(ps) < 2 or len(wk) != 1:
+            r.unrec(f, "pos() ×%d, work ×%d, LogIndex literal %s" % (len(ps), len(wk), agg is not None), short_span(b.span), "expected ≥2/1/yes")
             continue
         wbb = wk[0][1]
         after = reach(b, [b.term(wbb)["t"]], blocked_edges=lambda e: e.kind == "unwind")
-        before = [bb for bb, t in ps if bb not in after]
-        later = [bb for bb, t in ps if bb in after]
         po = agg[4].get("pos")
         lo = peel(agg[4].get("len", ("unknown", "")))
         if lo[0] == "field" and lo[2] == "0":
             lo = peel(lo[1])
-        pos_ok = len(before) == 1 and po is not None and bool(origin_mentions(po, lambda y: y[0] == "call" and y[3] == (b.path, before[0])))
-        len_ok = len(later) == 1 and lo[0] == "bin" and lo[1].startswith("Sub") and bool(origin_mentions(lo[2], lambda y: y[0] == "call" and y[3] == (b.path, later[0]))) and bool(origin_mentions(lo[3], lambda y: y[0] == "call" and y[3] == (b.path, before[0]))) if before and later else False
+        # the position read that feeds index.pos, and the two that feed index.len (others — a debug
+        # assertion reading the position again — do not matter)
+        psites = {(b.path, bb): bb for bb, t in ps}
+        feed_pos = [psites[y[3]] for y in origin_mentions(po, lambda y: y[0] == "call" and y[3] in psites)] if po is not None else []
+        before = [bb for bb in feed_pos if bb not in after]
+        pos_ok = len(set(feed_pos)) == 1 and len(before) == 1
+        len_ok = False
+        later = []
+        if lo[0] == "bin" and lo[1].startswith("Sub") and before:
+            la = [psites[y[3]] for y in origin_mentions(lo[2], lambda y: y[0] == "call" and y[3] in psites)]
+            lb = [psites[y[3]] for y in origin_mentions(lo[3], lambda y: y[0] == "call" and y[3] in psites)]
+            later = [bb for bb in la if bb in after]
+            len_ok = len(set(la)) == 1 and len(later) == 1 and set(lb) == {before[0]}
         r.add(f, "index.pos = position before the entry", pos_ok, short_span(b.span), origin_str(po) if po else "?")
         r.add(f, "index.len = position after − position before", len_ok, short_span(b.span), origin_str(lo)[:100])
     return r
@@ -288,42 +299,44 @@ def s17_sign_discipline(ctx):
     is_peek = lambda x: x[0] == "call" and x[1] and x[1].endswith("peek_byte")
 
     def flag_for(v):
-        cur, val, steps = 0, None, 0
-        while cur != bb and steps < 400:
-            steps += 1
+        """value of the sign flag when the flag test is reached, with the byte peek_byte returned
+        fixed to v: switches on that byte are decided, `?` takes its success side, every other
+        switch (an assertion, a bounds check) is followed on all sides that get there"""
+        arrived = set()
+        seen = set()
+        stack = [(0, None)]
+        while stack:
+            cur, val = stack.pop()
+            if (cur, val) in seen or len(seen) > 4000:
+                continue
+            seen.add((cur, val))
+            if cur == bb:
+                arrived.add(val)
+                continue
             for st in b.blocks[cur]["stmts"]:
                 if st["k"] == "assign" and not st["pl"]["p"] and st["pl"]["l"] == flag:
                     val = const_int(b.origin_rvalue(st["rv"]))
-            t = b.term(cur)
             si = b.switch_info(cur)
-            nxt = None
-            if si is None:
-                outs = [e.dst for e in b.succ[cur] if e.kind != "unwind"]
-                nxt = outs[0] if len(outs) == 1 else None
-            elif si["kind"] == "int" and origin_mentions(si["on"], is_peek):
-                for e in b.succ[cur]:
-                    labs = si["arms"].get(e.dst, [])
-                    if str(v) in labs:
-                        nxt = e.dst
-                if nxt is None:
-                    nxt = si.get("otherwise")
-            elif si["kind"] == "bool":
+            nxts = None
+            if si is not None and si["kind"] == "int" and origin_mentions(si["on"], is_peek):
+                nxts = [e.dst for e in b.succ[cur] if str(v) in si["arms"].get(e.dst, [])] or [si.get("otherwise")]
+            elif si is not None and si["kind"] == "bool":
                 o = peel_var(si["on"])
                 if o[0] == "bin" and o[1] in ("Eq", "Ne") and (origin_mentions(o[2], is_peek) or origin_mentions(o[3], is_peek)):
                     c = const_int(o[3]) if origin_mentions(o[2], is_peek) else const_int(o[2])
                     if c is not None:
                         truth = (v == c) if o[1] == "Eq" else (v != c)
-                        for e in b.succ[cur]:
-                            if si["arms"].get(e.dst) == [truth]:
-                                nxt = e.dst
-            elif si["kind"] == "variant":
-                for e in b.succ[cur]:
-                    if si["arms"].get(e.dst) in (["Continue"], ["Ok"]):
-                        nxt = e.dst
-            if nxt is None:
-                return "?"
-            cur = nxt
-        return val if cur == bb else "?"
+                        nxts = [e.dst for e in b.succ[cur] if si["arms"].get(e.dst) == [truth]]
+            elif si is not None and si["kind"] == "variant":
+                ok = [e.dst for e in b.succ[cur] if si["arms"].get(e.dst) in (["Continue"], ["Ok"])]
+                if ok:
+                    nxts = ok
+            if nxts is None:
+                nxts = [e.dst for e in b.succ[cur] if e.kind != "unwind"]
+            for n in nxts:
+                if n is not None:
+                    stack.append((n, val))
+        return list(arrived)[0] if len(arrived) == 1 else "?"
 
     sign_map = {"'-'": flag_for(45), "'+'": flag_for(43), "digit": flag_for(48)}
     want = {"'-'": 0, "'+'": 1, "digit": 1}
@@ -478,21 +491,19 @@ def s18_encoder_sequence(ctx):
         else:
             good = False
         r.add(f, "%s is written as the RESP sequence" % v, good, where(wb, sbb), "" if good else "writes %s" % [(k, x.decode("latin1") if isinstance(x, bytes) else (x if isinstance(x, str) else origin_str(x))) for k, x in seq])
-    afam = prog.family("net::connection::Connection::write_array")
-    ab = [x for x in afam if x.coroutine]
-    if ab:
-        ab = ab[0]
-        seq = seq_from(ab, 0, set())
+    ab, a0, astop = array_writer_region(prog)
+    if ab is not None:
+        seq = seq_from(ab, a0, astop)
         kinds = [k for k, x in seq]
         o1 = peel(seq[1][1]) if len(seq) > 1 and seq[1][0] == "dec" else ("unknown", "")
-        good = kinds[:3] == ["u8", "dec", "lit"] and seq[0][1] == "*" and seq[2][1] == b"\r\n" and o1[0] == "call" and o1[1].split("::")[-1] == "len" and access_path(o1[2][0]) == "items" and kinds[3:] == ["item"]
+        good = kinds[:3] == ["u8", "dec", "lit"] and seq[0][1] == "*" and seq[2][1] == b"\r\n" and o1[0] == "call" and o1[1].split("::")[-1] == "len" and (access_path(o1[2][0]) == "items" or (access_path(o1[2][0]) or "").endswith("<Array>.0")) and kinds[3:] == ["item"]
         r.add("net::connection::Connection::write_array", "'*', decimal(items.len()), CRLF, then the items", good, short_span(ab.span), "" if good else "%s" % [(k, x if isinstance(x, (str, bytes)) else origin_str(x)) for k, x in seq])
         # every item: the loop over items calls write_single_value with the loop variable
         nx = calls_in([ab], "std::iter::Iterator::next")
         it_ok = False
         for _, nb, nt in nx:
             o = arg_origin(ab, nt, 0)
-            if "items" in origin_str(o) and not origin_mentions(o, lambda y: y[0] == "call" and y[1] and y[1].split("::")[-1] in ("skip", "take", "rev", "step_by", "filter")):
+            if ("items" in origin_str(o) or "<Array>.0" in origin_str(o)) and not origin_mentions(o, lambda y: y[0] == "call" and y[1] and y[1].split("::")[-1] in ("skip", "take", "rev", "step_by", "filter")):
                 it_ok = True
         r.add("net::connection::Connection::write_array", "iterates over all items in order", it_ok, short_span(ab.span))
     # write_decimal: the plain decimal of `value`, exactly the bytes that were formatted
@@ -501,14 +512,15 @@ def s18_encoder_sequence(ctx):
     if db:
         db = db[0]
         fn = "net::connection::Connection::write_decimal"
-        disp = calls_in([db], "core::fmt::rt::Argument::new_display")
+        notdbg = lambda lst: [(x_, bb_, t_) for x_, bb_, t_ in lst if "macro:debug_assert" not in (t_.get("fn_exp") or "") + (t_.get("exp") or "")]
+        disp = notdbg(calls_in([db], "core::fmt::rt::Argument::new_display"))
         others = calls_in([db], "core::fmt::rt::Argument::new_debug", "core::fmt::rt::Argument::new_lower_hex", "core::fmt::rt::Argument::new_upper_hex", "core::fmt::rt::Argument::new_octal", "core::fmt::rt::Argument::new_binary", "core::fmt::rt::Argument::new_lower_exp", "core::fmt::rt::Argument::new_upper_exp")
-        tm = [arg_origin(db, t, 0) for _, bb, t in calls_in([db], "std::fmt::Arguments::new")]
+        tm = [arg_origin(db, t, 0) for _, bb, t in notdbg(calls_in([db], "std::fmt::Arguments::new"))]
         from k3 import _lit_from_display
 
         tbytes = [const_bytes(o) or _lit_from_display(peel(o)[1].get("v")) if peel(o)[0] == "const" else None for o in tm]
         wa = calls_in([db], "tokio::io::AsyncWriteExt::write_all")
-        ps = calls_in([db], "std::io::Cursor::position")
+        ps = notdbg(calls_in([db], "std::io::Cursor::position"))
         if len(disp) == 1 and len(tm) == 1 and len(wa) == 1 and len(ps) == 1 and not others:
             good = access_path(arg_origin(db, disp[0][2], 0)) == "value" and tbytes[0] == b"\xc0\x00"
             r.add(fn, "formats `value` with a bare `{}`", good, where(db, disp[0][1]), "template %r of %s" % (tbytes[0], origin_str(arg_origin(db, disp[0][2], 0))))
@@ -806,7 +818,7 @@ def s21_forwarding(ctx):
             o2 = peel_var(o) if o is not None else None
             if o2 is not None and o2[0] == "call" and o2[1].split("::")[-1] == "get" and ("Reader" in o2[1]) and len(o2[2]) == 2 and access_path(o2[2][1]) == "key":
                 n_fw += 1
-            elif cl == "err" and o2 is not None and "Closed" in origin_str(o2):
+            elif cl == "err" and returns_closed_error(b, o2):
                 pass
             else:
                 good = False
@@ -956,13 +968,12 @@ def s2c_unconditional_counting(ctx):
         return not (reach(b, [start], blocked_edges=blocked, blocked_blocks=targets) & ends)
 
     wr = prog.one("storage::bitcask::Writer::write")
-    wbb, winfo = k3._value_switch(wr, lambda i: (i["kind"] == "bool" and "is_some" in origin_str(i["on"]) and "value" in origin_str(i["on"])) or (i["kind"] == "variant" and (access_path(i["on"]) or "").endswith("value")))
+    wbb, some_dst, none_dst = k3.written_value_switch(wr)
     if wbb is None:
         r.unrec(fam_name(wr), "test of the written value (Some/None)", short_span(wr.span), "not found")
     else:
         oks = {d[0] for c, d, rb in ret_classes(wr, 0, blocked) if c == "ok" and d is not None}
-        for lab, want in (((True, "Some"), "add_live"), ((False, "None"), "add_dead")):
-            dst = [e.dst for e in wr.succ[wbb] if winfo["arms"].get(e.dst) in ([lab[0]], [lab[1]])]
+        for dst, want in ((some_dst, "add_live"), (none_dst, "add_dead")):
             tg = {bb for _, bb, t in calls_in([wr], "storage::bitcask::log::LogStatistics::%s" % want)}
             good = bool(dst) and bool(tg) and bool(oks) and must_pass(wr, dst[0], tg, oks)
             r.add(fam_name(wr), "%s record ⇒ %s on every path to Ok" % ("live" if want == "add_live" else "tombstone", want), good, where(wr, wbb))
@@ -1073,6 +1084,11 @@ def n3_no_new_panic_sites(ctx):
             elif cn in ("std::rt::panic_fmt", "core::panicking::panic", "core::panicking::panic_fmt", "core::panicking::unreachable_display", "core::panicking::panic_explicit", "core::panicking::assert_failed", "std::rt::begin_panic"):
                 kind = "panic"
             if kind is None:
+                continue
+            # debug_assert!: the developer's own executable statement of an invariant, compiled into
+            # debug builds only; the properties are read for the shipped configuration, where it is
+            # not there (an overflow check is different: without it the value silently wraps)
+            if "macro:debug_assert" in exp:
                 continue
             # the tracing macros (instrument / event!) expand to Option::expect on field iterators
             if "macro:$crate::valueset" in exp or "macro:tracing::" in exp or "attr:tracing::instrument" in exp and kind != "panic":
